@@ -35,7 +35,7 @@ fn vtx2(x: f64, y: f64, id: u8) -> Vertex<f64, u8, 2> {
     Vertex::new_with_uuid(Point::new([x, y]), Uuid::nil(), Some(id))
 }
 fn vid(v: &Vertex<f64, u8, 2>) -> u8 {
-    match v.data() { Some(d) => *d, None => 255 }
+    match v.data { Some(d) => d, None => 255 }
 }
 
 #[kani::proof]
